@@ -131,6 +131,27 @@ def demos():
     d3 = json.loads(json.dumps(d))
     d3["compiled"][0]["modes"] = [1, 0]
     expect("TraceDevice: in range / out of range / swapped modes", _verdicts("TraceDevice", [d, d2, d3]), ["accepted", "ParameterOutOfRange", "ModesDifferFromLayout"])
+    # C12 (Borealis): correct compensation / one loop left uncompensated / forced rotation by pi with a warning / gate on a wrong mode
+    lay = [{"name": "Sgate", "modes": [3], "fixed": [0]}, {"name": "Rgate", "modes": [3], "fixed": []}, {"name": "BSgate", "modes": [2, 3], "fixed": [1570796]},
+           {"name": "Rgate", "modes": [3], "fixed": []}, {"name": "Rgate", "modes": [2], "fixed": []}, {"name": "BSgate", "modes": [0, 2], "fixed": [1570796]},
+           {"name": "Rgate", "modes": [2], "fixed": []}, {"name": "MeasureFock", "modes": [0], "fixed": []}]
+    b = {"M": 10, "T": 4, "delays": [1, 2], "BK": 4, "smax": 2000, "sq": [500] * 4, "csq": [500] * 4, "bs": [[1] * 4, [1] * 4], "cbs": [[1] * 4, [1] * 4],
+         "sphi": [[0] * 4, [0] * 4], "soff": [0, 0], "cphi": [[0, 1, 2, -2], [0, -1, -1, -2]], "coff": [1, 1], "layout": lay, "ops": lay, "warned": False, "strict": False}
+    b2 = dict(b, cphi=[[0, 1, 2, -2], [0, 0, 0, 0]])
+    b3 = dict(b, cphi=[[0, 1, 2, -2], [0, -1, -1, 3]])
+    b4 = dict(b, sphi=[[0] * 4, [0, 0, 5, 0]], warned=True)      # the source asked for pi more than the modulator applies
+    b5 = dict(b, ops=lay[:5] + [dict(lay[5], modes=[1, 2])] + lay[6:])
+    expect("TraceBorealis: compensated / loop 1 left alone / out of range / pi-rotated with warning / wrong mode",
+           _verdicts("TraceBorealis", [b, b2, b3, b4, b5]),
+           ["accepted", "StatisticsDiffer", "ParameterOutOfRange", "StatisticsChangedWithWarning", "ModesDifferFromLayout"])
+    r = common.run_tlc("MC_Borealis", constants={"M": 10, "T": 3, "Delays": common.Subst("D12"), "Thetas": [0, 1, 3], "PhiVals": [0, 1], "UserVal": 2,
+                                                 "UserRule": "continue", "ClsMode": "mixing", "WithPrepare": False, "SparseSrc": False, "EMIT": False},
+                       invariants=["PreservesStatistics"], use_override=False)
+    expect("mutant: user-owned loop skipped entirely (code before 9d746a5) -> PreservesStatistics violated", not r.ok(), True)
+    r = common.run_tlc("MC_Borealis", constants={"M": 10, "T": 3, "Delays": common.Subst("D12"), "Thetas": [0, 1, 3], "PhiVals": [0, 1], "UserVal": 2,
+                                                 "UserRule": "rereference", "ClsMode": "mixing", "WithPrepare": False, "SparseSrc": False, "EMIT": False},
+                       invariants=["NeverWarned"], use_override=False)
+    expect("witness: a rotation by pi is forced in some behaviour -> NeverWarned violated (warned branch not vacuous)", not r.ok(), True)
     # model-level mutants: the invariants are not vacuous
     r = _mutant("MC_Opt", ["Optimizer.tla"], [("AddFirst(k, a.p[1], b.p[1], a.dag # b.dag)", "AddFirst(k, a.p[1], b.p[1], FALSE)")],
                 constants={"NMod": 1, "Len0": 0, "AlphaId": "h", "EMIT": False}, invariants=["MergeAlgebraSound"])
